@@ -258,6 +258,25 @@ func genKeys(g *core.Gen) {
 		}
 		g.Case("drv", depth > 0, "C16 drv "+n.name+" "+hx(seed)+" "+ps)
 	}
+	// parents whose private key has leading zero bytes (stored stripped by Derive): hardened and normal children
+	found := 0
+	for tries := 0; tries < 40000 && found < g.N(3, 12); tries++ {
+		seed := r.Bytes(16)
+		m, err := hdkeychain.NewMaster(seed, &chaincfg.MainNetParams)
+		if err != nil {
+			continue
+		}
+		i := r.U32()
+		c, err := m.Derive(i)
+		if err != nil || !c.IsAffectedByIssue172() {
+			continue
+		}
+		found++
+		for _, j := range []uint32{0x80000000, 0x80000001 + r.U32()&0xffff, 0, 1 + r.U32()&0xffff} {
+			g.Case("drv-shortkey", true, "C16 drv mainnet "+hx(seed)+" "+strconv.FormatUint(uint64(i), 10)+","+
+				strconv.FormatUint(uint64(j), 10)+","+strconv.FormatUint(uint64(r.U32()), 10))
+		}
+	}
 	g.Case("drv-bip32-tv1", true, "C16 drv mainnet 000102030405060708090a0b0c0d0e0f 2147483648,1,2147483650,2,1000000000")
 	g.Case("drv-bip32-tv3", true, "C16 drv mainnet 4b381541583be4423346c643850da4b320e46a87ae3d2a4e6da11eba819cd4acba45d239319ac14f863b8d5ab5a0d0c64d2e8a1e7d1457df2e5a3c51c73235be 2147483648")
 	genTap(g)
